@@ -1,7 +1,7 @@
 (* C05 — Streaming translation: bounded lag and bounded memory.
    Pinned statements only; proofs are in theories/StreamProofs.v,
    theories/ChunkerProofs.v and theories/TotalityProofs.v. *)
-From XtModel Require Import Base InputModel InputProofs TotalityProofs StreamModel StreamProofs.
+From XtModel Require Import Base Utf8 UtfModel UtfStreamProofs InputModel InputProofs TotalityProofs StreamModel StreamProofs.
 
 (* In every run of the per-document loop - any number of documents, any stream
    length, any packetisation of the stream into read() results, any monotone
@@ -36,3 +36,19 @@ Theorem C05_detection_capture_bounded :
     Inv c -> cap_capture_up_to c size = (c', r) ->
     length (prefix c') <= Nat.max (length (prefix c)) size.
 Proof. exact capture_bounded. Qed.
+
+(* The formal root of the known finding K-C05-utf16-yaml-reencoder-fills-buffer:
+   the UTF-16/32 re-encoder never returns early.  Whatever its state and the
+   text still to come, a read() into a buffer of n bytes returns n bytes unless
+   the text ends first - so when libyaml asks for 16 KiB it consumes input until
+   16 KiB of UTF-8 exist, however many complete documents that spans.  (For
+   UTF-8 input the request is passed to the source, which may return early.)
+   The look-ahead premise of C05_lag_at_most_two therefore cannot be met by
+   re-encoded streams of small documents; the oracle measures the actual lag
+   and reports it as that known finding. *)
+Theorem C05_reencoder_fills_request :
+  forall (e : estate) (cs : list N) (n : nat),
+    enc_at e cs ->
+    exists (out : bytes) (e' : estate) (cs' : list N),
+      enc_read e n = ROk out e' /\ enc_at e' cs' /\ (length out = n \/ pending e' cs' = []).
+Proof. exact reencoder_fills_request. Qed.
